@@ -144,7 +144,7 @@ func genTxnSchema(rng *rand.Rand, withRefs bool) TxnSchema {
 			if hasTags == 2 {
 				t.Indexes = [][]string{{"tag", "tag2"}}
 			}
-		case 5:
+		case 4, 5:
 			// a set column used whole (its value is unordered)
 			if hasS {
 				t.Indexes = [][]string{{"s"}}
@@ -168,13 +168,17 @@ func genTxnSchema(rng *rand.Rand, withRefs bool) TxnSchema {
 		}
 		spec.Tables = append(spec.Tables, t)
 	}
-	if withRefs && rng.Intn(3) == 0 {
+	if withRefs && rng.Intn(2) == 0 {
 		// chains: rows of a non-root table that hold each other alive (next), held by a root row (chead) that
 		// also refers to them weakly (cwatch): dropping the head garbage collects the chain link by link, and
 		// every pass of the reference bookkeeping touches the same root row again
 		uu := ColType{Kind: "set", Key: "uuid", Min: 0, Max: -1}
+		// (half of the time the weak column has a minimum: a chain that goes link by link, one pass of the
+		// reference bookkeeping after the other, leaves it with too few elements only in the last pass)
+		watch := uu
+		watch.Min = rng.Intn(2)
 		spec.Tables[0].Cols = append(spec.Tables[0].Cols, ColSpec{Name: "chead", Type: uu, RefTable: chainTable, RefType: "strong"},
-			ColSpec{Name: "cwatch", Type: uu, RefTable: chainTable, RefType: "weak"})
+			ColSpec{Name: "cwatch", Type: watch, RefTable: chainTable, RefType: "weak"})
 		spec.Tables = append(spec.Tables, TableSpec{Name: chainTable, Cols: []ColSpec{
 			{Name: "name", Type: ColType{Kind: "atom", Key: "string", Min: 1, Max: 1}},
 			{Name: "n", Type: ColType{Kind: "atom", Key: "integer", Min: 1, Max: 1}},
@@ -469,6 +473,8 @@ type shadow struct {
 	// a claim to make in the next transaction: the values a row holds in one schema index of its table,
 	// after the previous transaction changed its value in another index of the same table
 	pending *pendingClaim
+	// selects to put in front of the next transaction
+	probes []OperationJ
 }
 
 type pendingClaim struct {
@@ -725,13 +731,24 @@ func genTxn(rng *rand.Rand, ts TxnSchema, sh *shadow, nops int) TxnJ {
 	var tail []OperationJ
 	// index traffic: values of an index moving between existing rows inside one transaction, and
 	// inserts that claim the index values of an existing row (must be rejected unless that row goes)
+	if len(sh.probes) > 0 {
+		t.Ops = append(t.Ops, sh.probes...)
+		sh.probes = nil
+	}
 	if sh.pending != nil {
 		if op, ok := g.genPendingClaim(); ok {
 			tail = append(tail, op)
 		}
 		sh.pending = nil
 	}
-	switch rng.Intn(30) {
+	k := rng.Intn(32)
+	if g.hasChains() && rng.Intn(5) == 0 {
+		k = 21 // schemas with chains: build and drop them often enough for both to happen in one history
+	}
+	switch k {
+	case 30, 31:
+		// a row inserted, deleted and inserted again under the same uuid, then looked at
+		t.Ops = append(t.Ops, g.genReinsert()...)
 	case 17, 18:
 		// a row changes its value in one schema index of a table that has several; the next transaction
 		// claims the value it still holds in another one (which must be refused)
@@ -850,6 +867,53 @@ func (g *txnGen) indexedTable(n int) (TableSpec, []string, bool) {
 	return t, uuids, true
 }
 
+// genReinsert: a row is inserted, deleted and inserted again under the same uuid in one transaction; the
+// operations that follow must work on the second row (defect D73: the uuid stayed in the transaction's
+// list of deleted rows, which hid the row from them)
+func (g *txnGen) genReinsert() []OperationJ {
+	rng := g.rng
+	t := g.ts.Spec.Tables[rng.Intn(len(g.ts.Spec.Tables))]
+	u := g.sh.fresh()
+	mk := func() Row {
+		row := Row{}
+		for _, c := range t.Cols {
+			if rng.Intn(3) != 0 {
+				row[c.Name] = nativeToOvsValue(g.genColValue(c))
+			}
+		}
+		return row
+	}
+	ops := []OperationJ{
+		{Op: "insert", Table: t.Name, UUID: u, Row: mk()},
+		{Op: "delete", Table: t.Name, Where: byUUID(u)},
+		{Op: "insert", Table: t.Name, UUID: u, Row: mk()},
+	}
+	g.inserted[t.Name] = append(g.inserted[t.Name], u)
+	where := byUUID(u)
+	if rng.Intn(2) == 0 {
+		where = nil
+	}
+	switch rng.Intn(4) {
+	case 0:
+		ops = append(ops, OperationJ{Op: "select", Table: t.Name, Where: where})
+	case 1:
+		ops = append(ops, OperationJ{Op: "update", Table: t.Name, Where: where, Row: Row{"n": VA(AI(int64(rng.Intn(5))))}})
+	case 2:
+		ops = append(ops, OperationJ{Op: "mutate", Table: t.Name, Where: where, Mutations: []MutationJ{{Col: "n", Mutator: "+=", Val: VA(AI(1))}}})
+	default:
+		ops = append(ops, OperationJ{Op: "delete", Table: t.Name, Where: where}, OperationJ{Op: "select", Table: t.Name})
+	}
+	return ops
+}
+
+// reordered: the same set or map with its elements in another order
+func (g *txnGen) reordered(v *Value) *Value {
+	v = cloneValue(v)
+	g.rng.Shuffle(len(v.S), func(i, j int) { v.S[i], v.S[j] = v.S[j], v.S[i] })
+	g.rng.Shuffle(len(v.M), func(i, j int) { v.M[i], v.M[j] = v.M[j], v.M[i] })
+	return v
+}
+
 func byUUID(u string) []WCondJ { return []WCondJ{{Col: "_uuid", Fn: "==", Val: VA(AU(u))}} }
 
 // genIndexMove: two rows exchange (or rotate) the values of an index; the final
@@ -863,7 +927,16 @@ func (g *txnGen) genIndexMove() []OperationJ {
 	a, b := g.sh.rows[t.Name][uuids[0]], g.sh.rows[t.Name][uuids[1]]
 	ra, rb := Row{}, Row{}
 	for _, c := range idx {
-		ra[c], rb[c] = nativeToOvsValue(b[c]), nativeToOvsValue(a[c])
+		ra[c], rb[c] = g.reordered(nativeToOvsValue(b[c])), g.reordered(nativeToOvsValue(a[c]))
+	}
+	// the next transaction looks both rows up by the values they hold now (an index entry lost or
+	// left behind while the values moved shows there)
+	for _, mv := range []Row{ra, rb} {
+		var where []WCondJ
+		for _, c := range idx {
+			where = append(where, WCondJ{Col: c, Fn: "==", Val: mv[c]})
+		}
+		g.sh.probes = append(g.sh.probes, OperationJ{Op: "select", Table: t.Name, Where: where})
 	}
 	ops := []OperationJ{{Op: "update", Table: t.Name, Row: ra, Where: byUUID(uuids[0])}, {Op: "update", Table: t.Name, Row: rb, Where: byUUID(uuids[1])}}
 	if g.rng.Intn(3) == 0 { // one-way move: the first row takes a fresh value, the second takes the first's old value
@@ -1016,6 +1089,20 @@ func (g *txnGen) genIndexClaim() (OperationJ, bool) {
 	idx := t.Indexes[g.rng.Intn(len(t.Indexes))]
 	src := g.sh.rows[t.Name][uuids[0]]
 	g.claimSrc = uuids[0]
+	// where an index holds a set column, prefer a source row whose set has several elements (the claim
+	// below gives them in another order)
+	for _, u := range uuids {
+		multi := false
+		for _, c := range idx {
+			if v := g.sh.rows[t.Name][u][c]; v != nil && (len(v.S) > 1 || len(v.M) > 1) {
+				multi = true
+			}
+		}
+		if multi {
+			src, g.claimSrc = g.sh.rows[t.Name][u], u
+			break
+		}
+	}
 	row := Row{}
 	for _, c := range t.Cols {
 		if g.rng.Intn(3) != 0 {
@@ -1023,7 +1110,8 @@ func (g *txnGen) genIndexClaim() (OperationJ, bool) {
 		}
 	}
 	for _, c := range idx {
-		row[c] = nativeToOvsValue(src[c])
+		// (a set or map with the same elements in another order is the same value)
+		row[c] = g.reordered(nativeToOvsValue(src[c]))
 	}
 	op := OperationJ{Op: "insert", Table: t.Name, Row: row, UUID: g.sh.fresh()}
 	g.inserted[t.Name] = append(g.inserted[t.Name], op.UUID)
